@@ -1471,8 +1471,20 @@ class Interp:
                     fields[fl[i]] = a
             for k, v in kw.items():
                 fields[k] = v
-            if 'flags' in kw or (len(args) > len(fl)):
-                pass
+            fv = fields.get('flags')
+            if fv is not None and fv[0] != 'set':
+                # flags=[...] / (...) given to the constructor: the same
+                # flag set as .flags.add() of each element afterwards
+                els = None
+                if fv[0] == 'obj' and '$elems' in st.objs.get(fv, {}):
+                    els = st.objs[fv]['$elems']
+                elif fv[0] == 'tuple':
+                    els = fv[1]
+                elif fv[0] == 'c' and isinstance(fv[1], (tuple, list,
+                                                         frozenset)):
+                    els = tuple(T.C(x) for x in fv[1])
+                if els is not None and all(x[0] == 'c' for x in els):
+                    fields['flags'] = ('set', frozenset(els))
             st.objs[o] = fields
             self.emit(st, 'new', e, obj=o, cls=cls, args=tuple(args),
                       kwargs=dict(kw))
@@ -1556,7 +1568,29 @@ class Interp:
         self._opaque_call(st, e, [init], init.qual, args, kw, o)
         return [(st, o)]
 
+    def _positional(self, fi, recv, args, kw, unbound):
+        """Keyword arguments of a call to an h2 function put in positional
+        order (rules read arguments by position): f(a, y=c, x=b) == f(a, b,
+        c).  Stops at the first parameter that is not given."""
+        if not kw or any(k is None for k in kw):
+            return list(args), dict(kw)
+        params = list(fi.params)
+        if fi.cls and 'staticmethod' not in fi.decorators and params and \
+                (recv is not None or unbound):
+            skip = 1 if not unbound else 0
+            params = params[skip:]
+        out = list(args)
+        rest = dict(kw)
+        for p in params[len(args):]:
+            if p in rest:
+                out.append(rest.pop(p))
+            else:
+                break
+        return out, rest
+
     def _call_h2(self, e, st, fis, recv, args, kw, names, unbound=False):
+        if len(fis) == 1 and not (fis[0].vararg or fis[0].kwarg):
+            args, kw = self._positional(fis[0], recv, args, kw, unbound)
         if len(fis) == 1:
             fi = fis[0]
             if fi.is_generator:
